@@ -3,7 +3,7 @@ from engine import *
 import sym
 import c10
 
-CONFIGS_QUICK = ["F_all"]
+CONFIGS_QUICK = ["F_all", "F_nool"]  # every configuration whose cfg-gated code the property depends on
 CONFIGS_THOROUGH = ["F_all", "F_nool"]
 TECHNIQUE = 'static analysis: exact value sets of the 14 escape predicates, replacement/entity inverse table, constant agreement (delimiter, key constants), flag provenance of SimpleTypeDeserializer constructions, QuoteTarget inheritance over every serializer construction'
 EXPLANATION = (
@@ -226,4 +226,52 @@ def r6_quote_target(ctx):
         quote.check(ctx, "R6", F, cfg)
 
 
-RULES = [("R1", r1_inverse), ("R2", r2_sets), ("R3", r3_delimiter), ("R4", r4_split_before_unescape), ("R5", r5_keys), ("R6", r6_quote_target)]
+def r7_bool_table(ctx):
+    """bool round trip: the serializers write `true` / `false`, and the deserializer's literal table maps those
+    (and the XSD alternatives 1 / 0) back to the same values."""
+    for cfg, F in ctx.facts.items():
+        bs = [b for b in F.bodies_matching(r"utils::CowRef::.*deserialize_bool$")]
+        ctx.ob("R7", "deserialize_bool:anchor", len(bs) == 1, "CowRef::deserialize_bool found (%d)" % len(bs), config=cfg)
+        for b in bs:
+            tab = {}
+            for p in ctx.paths(b):
+                vb = [c for c in calls(p) if name_is(c[2], "visit_bool")]
+                if not vb:
+                    continue
+                val = strip_wrappers(vb[-1][3][-1])
+                hit = [e for e in p if e[0] == "switch" and call_is(e[2], "eq") and e[3] != 0]
+                lit = None
+                if hit:
+                    for a in hit[-1][2][3]:
+                        a0 = strip_wrappers(a)
+                        if a0[0] == "c" and isinstance(a0[2], str):
+                            lit = a0[2].strip('"')
+                tab.setdefault(lit, set()).add(val[2] if val[0] == "c" else sym.show(val, 1))
+            want = {"1": {True}, "true": {True}, "0": {False}, "false": {False}}
+            ctx.ob("R7", "deserialize_bool:table", tab == want, "literal -> value: %s" % {k: sorted(v, key=str) for k, v in tab.items()}, config=cfg)
+        n = 0
+        for b in F.bodies_matching(r"quick_xml::se::.*Serializer>::serialize_bool$"):
+            rows = {}
+            for p in ctx.paths(b):
+                ws = [c for c in calls(p) if name_is(c[2], "write_str") and len(c[3]) > 1 and bytes_literal(c[3][1]) is not None]
+                if not ws:
+                    continue
+                d = decision_on(p, lambda t: strip_wrappers(t)[0] == "arg" and strip_wrappers(t)[2] in ("value", "v"))
+                rows[d != 0 if d is not None else None] = bytes_literal(ws[-1][3][1])
+            if rows:
+                n += 1
+                ctx.ob("R7", "serialize_bool:%s" % sym.short(strip_generics(b.path)).split(" as ")[0].strip("<"), rows == {True: b"true", False: b"false"}, "value -> literal written: %s" % rows, config=cfg)
+        ctx.floor("R7", "serializers writing bool literals", n, 1, config=cfg)
+
+
+def r8_lists(ctx):
+    """element lists: MapValueSeqAccess takes exactly the elements the field filter accepts (C20 R5 table, which also
+    covers the build without overlapped lists, where a non-matching element ends the list)"""
+    import c20
+    n0 = len(ctx.obs)
+    c20.r5_seq_table(ctx)
+    for o in ctx.obs[n0:]:
+        o["rule"] = "R8"
+
+
+RULES = [("R1", r1_inverse), ("R2", r2_sets), ("R3", r3_delimiter), ("R4", r4_split_before_unescape), ("R5", r5_keys), ("R6", r6_quote_target), ("R7", r7_bool_table), ("R8", r8_lists)]
